@@ -108,7 +108,7 @@ def spec_check(comps, weights, out, tol_logp=2e-5, tol_sum=1e-4):
             ws = sum(l * bo_score(cm["table"], vs, c, x) for l, cm, vs in zip(weights, comps, vsets))
             d.append(ws - lp)
             total += 10.0 ** lp
-        if abs(total - 1.0) > tol_sum:
+        if abs(total - 1.0) > tol_sum * max(1.0, max(abs(w) for w in weights) / 2):
             return "not-normalised", "context %r: probabilities sum to %.6f" % (b" ".join(c), total)
         spread = max(d) - min(d)
         if spread > 2 * tol_logp * max(1.0, max(abs(w) for w in weights)):
@@ -349,6 +349,32 @@ def oracle_bse(case, out):
         bad = next(i for i in range(len(vh) // 2) if d[2 * i:2 * i + 2] != vh[2 * i:2 * i + 2]) if vh != "-" and d != "-" else 0
         return "decode(encode(values)) differs from the values at entry %d of %d" % (bad, len(bh) // 2 if bh != "-" else 0)
     return None
+
+
+def gen_extreme_weights_case(rng):
+    """weight vectors of large magnitude -- all strongly positive, all strongly negative, mixed signs, one dominant -- on small
+    models: the un-normalised scores sum_i lambda_i log10 p_i reach +-40 .. +-200, far outside the range of a float power
+    (1e+-38) and of `1 + x` in long double (1e-19), while the float64 oracle and the exact model sums stay finite"""
+    base = gen_case(rng, rng.chance(1, 4))
+    base["comps"] = base["comps"][:rng.range(2, 3)]
+    k = len(base["comps"])
+    big = rng.choice([8.0, 10.0, 12.0, 15.0, 20.0])
+    style = rng.below(5)
+    if style == 0:
+        w = [big] * k
+    elif style == 1:
+        w = [-big] * k
+    elif style == 2:
+        w = [rng.choice([8.0, 10.0, 12.0]), -rng.choice([1.0, 2.0, 3.0])] + [1.0] * (k - 2)        # mixed signs: see design.d/C13.md
+    elif style == 3:
+        w = [-min(big, 15.0), rng.choice([2.0, 1.0, 0.5])] + [-1.0] * (k - 2)
+    else:
+        w = [big] + [rng.choice([0.5, 0.25, 1.0])] * (k - 1)
+    rng.shuffle(w)
+    base["weights"] = w
+    base.pop("weights_text", None)
+    base.pop("mem2", None)
+    return base
 
 
 def gen_pruned_case(rng):
@@ -617,7 +643,8 @@ def run(ctx):
             [("many", gen_many_models_case(rng)) for _ in range(ctx.pick(3, 40))] + \
             [("list", gen_list_case(rng, ctx.quick)) for _ in range(ctx.pick(5, 40))] + \
             [("disjoint", gen_disjoint_case(rng, ctx.quick)) for _ in range(ctx.pick(6, 60))] + \
-            [("pruned", gen_pruned_case(rng)) for _ in range(ctx.pick(10, 150))]
+            [("pruned", gen_pruned_case(rng)) for _ in range(ctx.pick(10, 150))] + \
+            [("extreme-weights", gen_extreme_weights_case(rng)) for _ in range(ctx.pick(10, 120))]
     cases = [(kind, spell_weights(rng, case) if "weights_text" not in case else case) for kind, case in cases]
     kinds = {}
     results = []
